@@ -356,6 +356,13 @@ def stats(rep, cmod):
         rep.violate('C09.stats', cmod, f, '__seq__', "stats['__seq__'] must be __dff__ + __latch__", node=f)
 
 
+def depends(rep, repo):
+    """Cell substitution is one of the edit operations of this property: its pin/back-reference rules (C10.pins, C10.keys,
+    C10.names) are part of this check."""
+    from checks import c10
+    c10.substitute_rules(rep, repo, repo.mod('circuit'))
+
+
 def thorough(rep, repo):
     """Thorough tier: the quick rules plus checker self-validation on the C09 slice of the mutation corpus."""
     from kvstatic import thorough as thorough_mod
